@@ -16,6 +16,12 @@ def make_cases(ctx, n):
         prog = gen.gen_program(rng, opts)
         text = gen.render(prog, rng, rng.choice(["plain", "plain", "tight"]))
         envs = [gen.gen_env(prog, rng) for _ in range(6)]
+        # unordered / extreme numeric values are floats too: nan compares false with everything
+        num = [f for f, t in prog.fields.items() if t in ("int", "float", "num") and f in prog.cond_fields()]
+        if num:
+            e = dict(envs[0])
+            e[rng.choice(num)] = rng.choice([float("nan"), float("inf"), float("-inf")])
+            envs.append(e)
         cases.append({"prog": prog, "text": text, "envs": envs})
     return cases
 
